@@ -128,6 +128,33 @@ def gen():
         conflicts.append((f"shared-path|AnyVecRef.{m}", f"    let mut v = mk();\n    let h = v.at(0);\n    let mut t = v.downcast_ref::<String>().unwrap();\n    {call}\n    sink(h.size());"))
     controls.append(("shared-path|readers", "    let mut v = mk();\n    let h = v.at(0);\n    let r = &v;\n    let mut t = v.downcast_ref::<String>().unwrap();\n"
                      "    sink((r.len(), r.capacity(), t.len(), t.at(0).len(), t.as_slice().len(), t.iter().count(), t.as_ptr(), r.as_bytes().len()));\n    sink(h.size());"))
+    # what is borrowed from an OWNING handle (removal handle, lazy clone of it) must not survive the handle's drop or consumption
+    owners = {"pop": "v.pop().unwrap()", "remove": "v.remove(0)", "swap_remove": "v.swap_remove(0)"}
+    for on, mkh in owners.items():
+        derived = {
+            "downcast_ref": ("let h: &String = p.downcast_ref::<String>().unwrap();", "sink(h.len());"),
+            "AnyValue::downcast_ref": ("let h: &String = AnyValue::downcast_ref::<String>(&p).unwrap();", "sink(h.len());"),
+            "downcast_mut": ("let h: &mut String = p.downcast_mut::<String>().unwrap();", "h.push('x');"),
+            "as_bytes": ("let h = p.as_bytes();", "sink(h.len());"),
+            "as_bytes_mut": ("let h = p.as_bytes_mut();", "sink(h.len());"),
+            "lazy_clone": ("let h = p.lazy_clone();", "sink(h.size());"),
+            "LazyClone::new": ("let h = LazyClone::new(&p);", "sink(h.size());"),
+            "lazy_clone.lazy_clone": ("let l = p.lazy_clone(); let h = LazyClone::new(&l).clone();", "sink(h.size());"),
+        }
+        for dn, (take, use) in derived.items():
+            base = f"    let mut v = mk();\n    let mut p = {mkh};\n    {take}\n"
+            controls.append((f"owner|{on}.{dn}|control", base + f"    {use}"))
+            conflicts.append((f"owner|{on}.{dn}|drop-handle", base + f"    drop(p);\n    {use}"))
+            conflicts.append((f"owner|{on}.{dn}|consume-handle", base + f"    let s = p.downcast::<String>();\n    {use}\n    sink(s);"))
+            conflicts.append((f"owner|{on}.{dn}|move-handle-into-vector", base + f"    let mut w = mk();\n    w.push(p);\n    {use}"))
+            esc_take = take.replace("let h: &String =", "h =").replace("let h: &mut String =", "h =").replace("let h =", "h =")
+            if dn != "lazy_clone.lazy_clone":
+                conflicts.append((f"owner|{on}.{dn}|escape-handle-scope", f"    let mut v = mk();\n    let h;\n    {{\n        let mut p = {mkh};\n        {esc_take}\n    }}\n    {use}"))
+    # the same for an element yielded by a drain while the drain is alive
+    base = "    let mut v = mk();\n    let mut d = v.drain(..);\n    let mut p = d.next().unwrap();\n"
+    for dn, (take, use) in {"downcast_ref": ("let h: &String = AnyValue::downcast_ref::<String>(&p).unwrap();", "sink(h.len());"), "LazyClone::new": ("let h = LazyClone::new(&p);", "sink(h.size());"), "as_bytes": ("let h = p.as_bytes();", "sink(h.len());")}.items():
+        controls.append((f"owner|drained.{dn}|control", base + f"    {take}\n    {use}"))
+        conflicts.append((f"owner|drained.{dn}|drop-handle", base + f"    {take}\n    drop(p);\n    {use}"))
     # an exclusive handle must not be duplicable
     for pn in ("at_mut", "get_mut", "iter_mut", "pop", "remove", "swap_remove", "drain", "splice", "drained_element", "downcast_mut"):
         create, use, _e, _o, _t = PRODUCERS[pn]
